@@ -275,6 +275,9 @@ def run_kani(ws, scratch, crate, harnesses, jobs=8, harness_timeout=300, extra_a
     return dict(results=results, raw=raw, rc=rc, wall=wall, compile_failed=compile_failed, cmd=" ".join(cmd))
 
 
+EXTRA_ARGS = {}  # crate -> extra cargo kani args of the current run (features), reused by playback
+
+
 def playback(ws, scratch, crate, h, log=None):
     """Concrete playback of a failing harness: returns dict(test_text, playback_ran, playback_failed_as_expected, output)."""
     env = dict(os.environ)
@@ -284,6 +287,7 @@ def playback(ws, scratch, crate, h, log=None):
            "--concrete-playback=inplace", "--exact", "--harness", h.full]
     if crate in ("incremental-font-transfer",):
         cmd += ["--lib"]
+    cmd += list(EXTRA_ARGS.get(crate, []))
     res = dict(test_text=None, test_names=[], playback_ran=False, reproduced=False, output="")
     try:
         p = subprocess.run(cmd, cwd=ws, env=env, stdout=subprocess.PIPE, stderr=subprocess.STDOUT, text=True,
@@ -317,7 +321,7 @@ def playback(ws, scratch, crate, h, log=None):
         res["output"] = out[-3000:]
         return res
     names = run_names
-    cmd2 = ["cargo", "kani", "playback", "-Z", "concrete-playback", "-p", crate, "--", "kani_concrete_playback_" + h.name]
+    cmd2 = ["cargo", "kani", "playback", "-Z", "concrete-playback", "-p", crate] + list(EXTRA_ARGS.get(crate, [])) + ["--", "kani_concrete_playback_" + h.name]
     try:
         p2 = subprocess.run(cmd2, cwd=ws, env=env, stdout=subprocess.PIPE, stderr=subprocess.STDOUT, text=True,
                             timeout=900)
